@@ -71,8 +71,11 @@ METHODS = ("run", "make", "apply", "reset")
 NAMES = ("alpha", "beta", "count", "size", "label", "mode", "rate", "depth", "flag", "limit")
 KWNAMES = ("strict", "timeout", "retries", "dry", "mode", "limit")
 TYPES = ("int", "str", "float", "bool", "Optional[int]", "Optional[str]", "List[str]", "Literal['a', 'b']",
-         "Dict[str, int]", "Optional[List[float]]")
+         "Dict[str, int]", "Optional[List[float]]",
+         # forward references: the annotation is a string literal and must arrive as one
+         '"Optional[Node]"', "'Settings'")
 VALUES = {
+    '"Optional[Node]"': ("None",), "'Settings'": ("None",),
     "int": ("0", "1", "7", "-3", "120"), "str": ("'a'", "'mnist'", "'x_y'", "\"q's\"", "'Straße'", "'déjà vu µm'"), "float": ("0.5", "-2.0", "1e-3"),
     "bool": ("True", "False"), "Optional[int]": ("None", "4"), "Optional[str]": ("None", "'left'"),
     "List[str]": ("['a']", "[]", "('x', 'y')"), "Literal['a', 'b']": ("'a'", "'b'"), "Dict[str, int]": ("{}", "{'k': 1}"),
